@@ -762,7 +762,7 @@ def get_placeholder_value(
                 return tuple(-np.ones(s.shape) for s in agent_space)
             else:
                 # For normal spaces
-                return -np.ones_like(agent_space.shape)
+                return -np.ones(agent_space.shape)
 
 
 def process_transition(
@@ -782,16 +782,18 @@ def process_transition(
     :param agents: List of sub-agent names
     :type agents: List[str]
     """
-    transition_list = list(transitions)
-    for transition, name in zip(transition_list, transition_names):
-        transition = {
-            agent: (
-                transition[agent]
-                if agent in transition.keys()
-                else get_placeholder_value(agent, name, obs_spaces)
-            )
-            for agent in agents
-        }
+    transition_list = []
+    for transition, name in zip(transitions, transition_names):
+        transition_list.append(
+            {
+                agent: (
+                    transition[agent]
+                    if agent in transition.keys()
+                    else get_placeholder_value(agent, name, obs_spaces)
+                )
+                for agent in agents
+            }
+        )
     return transition_list
 
 
